@@ -29,3 +29,38 @@ Proof.
   intros. destruct (c_lb_keogh_envelope l1 l2 window i) as (_ & _ & A & B).
   destruct (c_lb_keogh_euclidean_envelope l1 l2 window i) as (_ & _ & C & D). repeat split; assumption.
 Qed.
+
+(* THE C ROUTINES AS WRITTEN.  Gen_ced.v holds euclidean_distance_squared / _euclidean / _ndim_squared /
+   _ndim_euclidean of dd_ed.c (and the sqrt / ub_euclidean* wrappers) translated WHOLE by tools/cfun.py.  For all
+   series they return the model of ed.distance - the upper bound of C09_dtw_le_euclidean - with every access in range:
+   the prefix pairwise, the surplus elements of the longer series against the LAST element of the shorter one. *)
+From DV Require Import CLang CEd.
+From DVGen Require Import Gen_ced.
+Import ListNotations.
+
+Theorem C09_c_euclidean_distance_squared_as_written : forall f1 f2 : list Z, (1 <= length f1)%nat -> (1 <= length f2)%nat ->
+  c_euclidean_distance_squared f1 (Z.of_nat (length f1)) f2 (Z.of_nat (length f2)) =
+  (RPlain (Fin (ed_model SqEuclid (scal f1) (scal f2))), true).
+Proof. exact c_euclidean_distance_squared_spec. Qed.
+
+Theorem C09_c_euclidean_distance_euclidean_as_written : forall f1 f2 : list Z, (1 <= length f1)%nat -> (1 <= length f2)%nat ->
+  c_euclidean_distance_euclidean f1 (Z.of_nat (length f1)) f2 (Z.of_nat (length f2)) =
+  (RPlain (Fin (ed_model AbsDiff (scal f1) (scal f2))), true).
+Proof. exact c_euclidean_distance_euclidean_spec. Qed.
+
+Theorem C09_c_euclidean_distance_ndim_squared_as_written : forall (s1 s2 : list point) (d : nat),
+  (forall p, In p s1 -> length p = d) -> (forall p, In p s2 -> length p = d) -> (1 <= length s1)%nat -> (1 <= length s2)%nat ->
+  c_euclidean_distance_ndim_squared (concat s1) (Z.of_nat (length s1)) (concat s2) (Z.of_nat (length s2)) (Z.of_nat d) =
+  (RPlain (Fin (ed_model SqEuclid s1 s2)), true).
+Proof. exact c_euclidean_distance_ndim_squared_spec. Qed.
+
+Theorem C09_c_euclidean_distance_ndim_euclidean_as_written : forall (s1 s2 : list point) (d : nat),
+  (forall p, In p s1 -> length p = d) -> (forall p, In p s2 -> length p = d) -> (1 <= length s1)%nat -> (1 <= length s2)%nat ->
+  c_euclidean_distance_ndim_euclidean (concat s1) (Z.of_nat (length s1)) (concat s2) (Z.of_nat (length s2)) (Z.of_nat d) =
+  (RPlain (Fin (ed_model AbsDiff s1 s2)), true).
+Proof. exact c_euclidean_distance_ndim_euclidean_spec. Qed.
+
+(* unequal lengths, all-negative data: [-1;-2;-3] vs [-2]: 1 + 0 + 1 *)
+Example C09_c_ed_nonvacuous :
+  c_euclidean_distance_squared [-1; -2; -3]%Z 3 [-2]%Z 1 = (RPlain (Fin 2), true).
+Proof. vm_compute. reflexivity. Qed.
